@@ -120,6 +120,7 @@ def prof_C02(d, rng):
             d["hooks"].append("before_feature")
     d["continue_after_failed"] = rng.random() < 0.08
     d["nested"] = rng.random() < 0.25
+    d["async_steps"] = rng.random() < 0.25
     d["opts"] = {"p_background": rng.choice([0.3, 0.6, 0.9])}
 
 
